@@ -210,6 +210,15 @@ func enumC11(tier string) []Plan {
 							class = fmt.Sprintf("bin/contradictory/op%#02x", op)
 						}
 						out = append(out, c11Plan(id, raw, class, desc, contra, declared))
+						// the same contradictory frame as the second frame of a quiet-get batch: rend
+						// reads the later headers of a batch in another place than the first one
+						if contra && fi == 0 && (op == 0x00 || op == 0x09 || op == 0x0a || op == 0x40 || op == 0x41) {
+							for _, first := range []uint8{0x09, 0x41} {
+								pre := append(binHdr(first, 2, 0, 2, uint32(id)+7), 'k', '1')
+								q := c11Plan(id+uint64(first)<<40, append(pre, raw...), fmt.Sprintf("bin/contradictory-in-batch/op%#02x", op), "a quiet get (opcode "+fmt.Sprintf("%#02x", first)+") of key k1 followed by a "+desc, true, 0)
+								out = append(out, q)
+							}
+						}
 					}
 				}
 			}
@@ -338,7 +347,7 @@ func genC11(seed uint64, tier string) Plan {
 func init() {
 	register(&Prop{
 		ID: "C11", Gen: genC11, Exec: execC11, Enumerate: enumC11, Level: "fault_enumeration",
-		Rule:       "fault = arbitrary / malformed bytes from a client followed by EOF. Enumerated part: binary headers for every opcode 0..255 x key length {0,1,2,250,251,65535} x extras length {0,4,8,9,255} x total body {0, key+extras-1, key+extras, key+extras+1, 2^31, 2^32-1}, followed by 0 / total / key+extras / key+extras+3 body bytes (thorough: the whole grid; quick: every contradictory frame for the opcodes rend implements plus a ninth of the rest); seeded part: valid pipelines of both protocols mutated by bit flips (biased to headers), truncation at a drawn offset, length-field edits, garbage prefixes, pure garbage, single-byte edits, repeated tails, extreme text numbers, and (one run in forty) a flood of 4000-12000 identical rejected text lines on one connection, after which the goroutine stacks must not have grown by more than 256 KiB. Oracle: quiescence is reached (a spin is caught by the watchdog), a frame with total body < key + extras is answered or the connection closed without waiting for more input, bytes allocated while decoding (runtime.MemStats.TotalAlloc delta) stay below 1 MiB + 4x the sizes the frame consistently declares, after EOF rend closes the connection and no goroutine executing repository code is left over, no pooled protocol object was handed back twice (poisoning pools), anything rend did send is well-formed, and another and a new connection are still served. Coverage-guided fuzzing (named in the property's quantifier) is a different technique and is not done. Every case injects malformed input; distinct = distinct plan hash",
+		Rule:       "fault = arbitrary / malformed bytes from a client followed by EOF. Enumerated part: binary headers for every opcode 0..255 x key length {0,1,2,250,251,65535} x extras length {0,4,8,9,255} x total body {0, key+extras-1, key+extras, key+extras+1, 2^31, 2^32-1}, followed by 0 / total / key+extras / key+extras+3 body bytes; contradictory get-family and NOOP headers also as the second frame of a GETQ / GETEQ batch (thorough: the whole grid; quick: every contradictory frame for the opcodes rend implements plus a ninth of the rest); seeded part: valid pipelines of both protocols mutated by bit flips (biased to headers), truncation at a drawn offset, length-field edits, garbage prefixes, pure garbage, single-byte edits, repeated tails, extreme text numbers, and (one run in forty) a flood of 4000-12000 identical rejected text lines on one connection, after which the goroutine stacks must not have grown by more than 256 KiB. Oracle: quiescence is reached (a spin is caught by the watchdog), a frame with total body < key + extras is answered or the connection closed without waiting for more input, bytes allocated while decoding (runtime.MemStats.TotalAlloc delta) stay below 1 MiB + 4x the sizes the frame consistently declares, after EOF rend closes the connection and no goroutine executing repository code is left over, no pooled protocol object was handed back twice (poisoning pools), anything rend did send is well-formed, and another and a new connection are still served. Coverage-guided fuzzing (named in the property's quantifier) is a different technique and is not done. Every case injects malformed input; distinct = distinct plan hash",
 		Real:       realFullStack,
 		Stub:       stubFullStack,
 		FaultKinds: []string{"malformed_input"},
